@@ -433,6 +433,19 @@ def seq_values(P, k: str, L: int, v: dict) -> Iterator[Tuple[str, Callable[[], A
             yield "(P_INNER*L)()", (lambda: carray(P, k, [], L)), [bytes(ctypes.sizeof(P.P_INNER))] * L
         else:
             yield "(ctype*L)(..)", (lambda: carray(P, k, good(), L)), exp(good())
+    elif t == "CARR_WRAP":
+        if L and k in CT_OTHER:
+            signed = k.startswith("Int")
+            width = ctypes.sizeof(CT[k])
+            other = {1: (ctypes.c_uint8, ctypes.c_int8), 2: (ctypes.c_uint16, ctypes.c_int16), 4: (ctypes.c_uint32, ctypes.c_int32),
+                     8: (ctypes.c_uint64, ctypes.c_int64)}[width][0 if signed else 1]
+            bad = (2 ** (8 * width - 1) + 72) if signed else -56          # representable in the carrier, outside the field's range
+            for pos in sorted({0, L - 1, L // 2}):
+                def mk(pos=pos):
+                    vals = [1] * L
+                    vals[pos] = bad
+                    return (other * L)(*vals)
+                yield f"({other.__name__}*L) bad@{pos}", mk, None
     elif t == "CARR_LEN":
         yield "(ctype*(L+1))()", (lambda: carray(P, k, [], L + 1)), None
     elif t == "CARR_OTHER":
